@@ -901,7 +901,9 @@ fn main() {
     let nseq = arg_u64("--seqs", if thorough { 700 } else { 60 });
     let len = arg_u64("--len", 45);
     let mut rng = Rng::new(seed);
-    directed(&mut t, thorough);
+    if arg_str("--skip-directed").is_none() {
+        directed(&mut t, thorough);
+    }
     for k in 0..nseq {
         random_sequence(&mut t, &mut rng, k, seed, len);
     }
